@@ -3,6 +3,7 @@ package main
 import (
 	"fmt"
 	"strings"
+	"time"
 
 	"github.com/metrico/qryn/reader/model"
 	"github.com/prometheus/prometheus/tsdb/chunkenc"
@@ -176,6 +177,23 @@ func runCursor(c cursorCase) (class, what string) {
 	return "", ""
 }
 
+// runCursorGuarded bounds one operation sequence (a cursor operation that loops forever would otherwise hang the
+// check; the abandoned goroutine keeps spinning until exit).
+func runCursorGuarded(c cursorCase) (string, string) {
+	type res struct{ class, what string }
+	ch := make(chan res, 1)
+	go func() {
+		class, what := runCursor(c)
+		ch <- res{class, what}
+	}()
+	select {
+	case r := <-ch:
+		return r.class, r.what
+	case <-time.After(10 * time.Second):
+		return "cursor:call_does_not_return", "a Seek/Next call of the sequence did not return within 10 s"
+	}
+}
+
 // sortedArrays enumerates every strictly increasing array of length <= maxLen over the timestamp menu (samples of
 // one Prometheus series have strictly increasing timestamps).
 func sortedArrays(menu []int64, maxLen int) [][]int64 {
@@ -221,10 +239,19 @@ func checkCursor(r *ev.Run, viol *violations) {
 	}
 	rec(nil)
 	n := 0
+	stuckCalls := 0
 	for _, a := range arrays {
 		for _, s := range seqs {
 			c := cursorCase{Part: "cursor", Samples: a, Ops: s}
-			class, what := runCursor(c)
+			class, what := runCursorGuarded(c)
+			if class == "cursor:call_does_not_return" {
+				stuckCalls++
+				if stuckCalls >= 3 {
+					viol.add(class, what+" — "+c.String(), c)
+					r.Cap("cursor part stopped: Seek/Next calls do not return")
+					return
+				}
+			}
 			n++
 			r.AddEval(1)
 			r.TracesValidated++
